@@ -1377,6 +1377,22 @@ pub fn run(ctx: &Ctx, prop: &str) -> (Vec<Case>, String, bool, BTreeMap<String, 
         }
         rule.push_str("; blocking requests (add_notify_wait_pop) on a queue with an earlier chain outstanding whose completion the device reports first: WrongToken, own chain still published, shared and counted, history continues to full return");
     }
+    if prop == "C03" {
+        // the queue's own client in the crate: OwningQueue consumes a completion and must hand the chain's
+        // buffer back whatever its handler returned (Some / None / Err) — "afterwards the chain's descriptors are
+        // reusable", "free descriptors = size - outstanding" as the device sees them through the wrapper
+        let mut ow = crate::runner::par_cases(ctx, "C19", "owning", ctx.tier.pick(300, 3000), |i, id| crate::c19_events::owning_dispatch(ctx, "owning", i, id));
+        for c in ow.iter_mut() {
+            c.oracle_failures.retain(|f| f.contains("expected exactly that token again") || f.contains("panicked"));
+            for f in c.oracle_failures.iter_mut() {
+                *f = format!("[C03] owning queue: a consumed completion did not put its buffer back: {}", f);
+            }
+            c.id = format!("C03-via-{}", c.id);
+            c.tag("owning-queue");
+        }
+        cases.extend(ow);
+        rule.push_str("; OwningQueue (the crate's own queue client) with handlers returning Some/None/Err and oversized completions: after every poll the device sees exactly the consumed buffer again");
+    }
     if prop == "C04" {
         // driver level: every driver's traffic runs over the same recording platform; its share/unshare
         // ledger (exactly once, same range, same direction, returned address) is C04 for the buffers
@@ -1392,7 +1408,9 @@ pub fn run(ctx: &Ctx, prop: &str) -> (Vec<Case>, String, bool, BTreeMap<String, 
         }
         extra.extend(crate::c19_events::run_drivers(ctx));
         for c in extra.iter_mut() {
-            c.oracle_failures.retain(|f| c04_relevant(f));
+            // (…and, on the bouncing platform, what the device wrote reaches the driver's buffer at unshare: an
+            // event read out of its buffer before the completion is consumed is the buffer's previous content)
+            c.oracle_failures.retain(|f| c04_relevant(f) || f.contains("but the device wrote"));
             for f in c.oracle_failures.iter_mut() {
                 *f = format!("[C04] {}", f);
             }
@@ -1405,7 +1423,7 @@ pub fn run(ctx: &Ctx, prop: &str) -> (Vec<Case>, String, bool, BTreeMap<String, 
         // unshared (and memory the device still writes)
         let mut snd = crate::c20_cmd::sound_cases(ctx, "C04", ctx.tier.pick(200, 3000));
         for c in snd.iter_mut() {
-            c.oracle_failures.retain(|f| f.contains("still shared with the live device") || c04_relevant(f));
+            c.oracle_failures.retain(|f| f.contains("still shared with the live device") || f.contains("buffers still shared") || c04_relevant(f));
             for f in c.oracle_failures.iter_mut() {
                 *f = format!("[C04] {}", f.trim_start_matches("[C09] "));
             }
@@ -1424,17 +1442,19 @@ pub fn run(ctx: &Ctx, prop: &str) -> (Vec<Case>, String, bool, BTreeMap<String, 
         cases.extend(mm);
         rule.push_str("; driver level: the block, console, network, socket and event-queue streams of C14/C15/C16/C17/C19 run over the recording platform and their share/unshare ledger failures (unshare with another range / direction / address, twice, never shared) are reported here; transport level: every driver is constructed over the real MMIO transport against a register-level device model and each queue address it latched must lie in live DMA memory (consecutive DMA regions differ in both address halves)");
     }
-    if prop == "C01" {
+    if prop == "C01" || prop == "C02" {
         // driver level: "indirect tables ... used only when enabled for the queue" for every driver's
         // queues — C08's construction + feature-gated operations, keeping its indirect-descriptor oracles
+        // (C02: a device that did not negotiate indirect descriptors parses such an entry as a plain
+        // descriptor, so the entry below the index does not describe the request)
         let mut s8 = crate::c08_init::run(ctx).0;
         s8.retain(|c| !c.id.contains("structured"));
         for c in s8.iter_mut() {
             c.oracle_failures.retain(|f| f.to_lowercase().contains("indirect"));
             for f in c.oracle_failures.iter_mut() {
-                *f = format!("[C01] {}", f);
+                *f = format!("[{}] {}", prop, f);
             }
-            c.id = format!("C01-via-{}", c.id);
+            c.id = format!("{}-via-{}", prop, c.id);
             c.tag("driver-level");
         }
         cases.extend(s8);
@@ -1454,7 +1474,7 @@ pub fn run(ctx: &Ctx, prop: &str) -> (Vec<Case>, String, bool, BTreeMap<String, 
         }
         cases.extend(g);
     }
-    if prop == "C02" || prop == "C04" {
+    if prop == "C01" || prop == "C02" || prop == "C04" {
         // transport level (2): arbitrary 64-bit queue addresses through the real MMIO transport — every
         // 64-bit address must reach the device as its own low and high word (C10's session stream)
         let mut s10 = crate::c10_mmio::run(ctx).0;
